@@ -65,6 +65,7 @@ FIELD_PROPS = {
     "ev.net.sev": ["C04", "C05", "C07"], "ev.net.cev": ["C05"], "ev.net.rxSev": [], "ev.net.srxCev": [],
     "delivered.client": ["C04", "C05"], "delivered.server": ["C05"],
     "enabled": [],
+    "enabled.SrvFrame": ["C10"],
 }
 
 
@@ -192,13 +193,11 @@ def extract_run(trace, run, out):
 
 def diff_field(d):
     if d["kind"] == "enabled":
-        return d["field"]
+        return "enabled." + d["field"]
     return d["kind"] + "." + d["field"]
 
 
 def props_of_diff(d):
-    if d["kind"] == "enabled":
-        return []
     return FIELD_PROPS.get(diff_field(d), [])
 
 
